@@ -139,7 +139,9 @@ def gen_cases(tier):
         if tier == "quick":
             # stratified: every description meets a list-installing foreign network at each of the three positions
             must = [(k, sl) for k in (("net_default",) if d.get("elements") and d["elements"][1:2] != ["E"] and "HE" in d["elements"] else ("net_upper",)) for sl in SLOTS]
-            sched = must + r.sample([x for x in sched if x not in must], 8)
+            # ... and another network that has been *rendered* (identifiers evaluated under its own lists) before the build and between renderings
+            must += [("render_other", "before_build"), ("render_other", "between_renderings")]
+            sched = must + r.sample([x for x in sched if x not in must], 7)
         cases.append({"desc": d, "schedules": sched, "backend": "odeint" if i % 4 == 3 else "dense", "hashseeds": ["0", "1", "2", "random"]})
     return cases
 
